@@ -471,7 +471,7 @@ fn secp_fp(cx: &mut Ctx) {
         "from_bytes",
         Enc::Be,
         32,
-        |b| Option::from(Fp::from_bytes(k256::FieldBytes::from_slice(b))),
+        |b| Option::from(Fp::from_bytes(&k256::FieldBytes::from(arr::<32>(b)))),
         Some(Box::new(|x: &Fp| x.to_bytes().to_vec())),
         |_, v| v.clone(),
     ));
@@ -491,7 +491,7 @@ fn secp_fq(cx: &mut Ctx) {
         &pc,
         "reduce_bytes<U256>",
         32,
-        |b| <Fq as Reduce<k256::U256>>::reduce_bytes(k256::FieldBytes::from_slice(b)),
+        |b| <Fq as Reduce<k256::U256>>::reduce_bytes(&k256::FieldBytes::from(arr::<32>(b))),
         |m, b| m.red(&from_be(b)),
     )];
     let cons = prime::constants(&pc, None);
